@@ -1,6 +1,6 @@
 #!/bin/bash
 # every thorough check, sequentially, without touching the committed evidence (quick evidence stays)
-cd /verif
+cd "$(dirname "${BASH_SOURCE[0]}")/.." || exit 2
 for id in "${@:-C01 C02 C03 C04 C05 C06 C07 C08 C09 C10 C11 C12 C13 C14 C15 C16 C17 C18 C19 C20}"; do
   for i in $id; do
     s=$(date +%s); out=$(timeout 3600 ./check $i --tier thorough --no-evidence 2>&1); rc=$?; e=$(date +%s)
